@@ -176,7 +176,6 @@ fn reads<D: Deref<Target = [i32]>>(v: &Inner<i32, D>, g: Geo, model: &[i32], cx:
             let exp: Vec<i32> = (0..g.w).map(|x| model[g.idx(x, i as u32)]).collect();
             match got {
                 Ok(r) if r == exp => {}
-                Err(_) if zero_w => { cx.rep.h("zero-width-row-index-panics(carve-out)"); }
                 Ok(r) => cx.viol("row-index", format!("{tag} i={i}"), format!("row {i} = {r:?} expected {exp:?}")),
                 Err(p) => cx.viol("row-index", format!("{tag} i={i}"), format!("row {i} panicked ({p}) expected {exp:?}")),
             }
